@@ -672,44 +672,6 @@ Section WorldFixed.
       intros T HT. rewrite (H4 T (text_mono _ _ _ B HT)), (D T HT). reflexivity.
   Qed.
 
-  (** a CURIE handed out by compaction stays expandable *)
-  Definition expandable (w : world) (known : list str) : Prop :=
-    forall c, In c known -> exists u, expand_in (p2e (mem (nst (wns w)))) c = Some u.
-
-  Lemma expandable_mono w w' known : wext w w' -> expandable w known -> expandable w' known.
-  Proof. intros [E _] H c Hc. destruct (H c Hc) as [u Hu]. exists u. eapply expand_in_ext; eassumption. Qed.
-
-  Lemma known_run ops : forall w known,
-    winv w -> expandable w known ->
-    expand_known_ok known (combine ops (snd (wrun v_fixed L ops w))) = true.
-  Proof.
-    induction ops as [|op ops IH]; intros w known Hinv Hk; cbn [wrun]; [reflexivity|].
-    destruct (wstep_strong op w Hinv) as (H1 & H2 & _ & _).
-    destruct (wstep v_fixed L op w) as [w1 o] eqn:Es. cbn [fst] in *.
-    pose proof (expandable_mono _ _ _ H2 Hk) as Hk1.
-    specialize (IH w1). destruct (wrun v_fixed L ops w1) as [w2 os] eqn:Er. cbn [snd combine] in *.
-    assert (Hdef : expand_known_ok known (combine ops os) = true) by (apply (IH known H1 Hk1)).
-    destruct op; try (destruct o as [[ | | | ]| | | ]; cbn [expand_known_ok]; exact Hdef).
-    cbn [wstep] in Es. change (v_alias v_fixed) with AliasCopy in Es.
-    destruct o0; try (destruct o as [[ | | | ]| | | ]; cbn [expand_known_ok]; exact Hdef).
-    - (* NCompact *)
-      destruct o as [[c| | | ]| | | ]; cbn [expand_known_ok]; try exact Hdef.
-      apply (IH (c :: known) H1). intros c' [<-|Hc']; [|apply Hk1, Hc'].
-      cbn [ns_step] in Es. destruct Hinv as (Hn & _ & _).
-      destruct (compact u (nst (wns w))) as [st' r] eqn:Ec. injection Es as <- Eo. cbn [wns nst with_st].
-      destruct r as [c0|]; cbn in Eo; [|discriminate]. injection Eo as <-.
-      destruct (is_http u) eqn:Hh.
-      + destruct (compact_spec u (nst (wns w)) Hn Hh) as (st2 & c2 & Hc2 & _ & Hex & _).
-        rewrite Ec in Hc2. injection Hc2 as <- <-. exists u. exact Hex.
-      + unfold compact in Ec. rewrite Hh in Ec. discriminate.
-    - (* NExpand *)
-      destruct o as [[ |  | | ]| | | ]; cbn [expand_known_ok]; try exact Hdef.
-      rewrite Hdef, andb_true_r. apply negb_true_iff.
-      destruct (existsb (str_eqb c) known) eqn:Ex; [|reflexivity]. exfalso.
-      apply existsb_exists in Ex. destruct Ex as (c' & Hc' & Heq). apply str_eqb_eq in Heq. subst c'.
-      destruct (Hk c Hc') as [u Hu].
-      cbn [ns_step] in Es. injection Es as _ Eo. unfold expand_curie in Eo. rewrite Hu in Eo. discriminate.
-  Qed.
 
   (** no stale context *)
   Definition kinv (w : world) (known : list (str * str)) : Prop :=
@@ -832,6 +794,58 @@ Section WorldFixed.
     - injection En as <- <-. cbn [compact_fun_ok]. exact Hdef.
   Qed.
 
+  (** a CURIE whose prefix was handed out must expand *)
+  Definition kp (w : world) (known : list str) : Prop :=
+    forall p, In p known -> exists e, slookup p (p2e (mem (nst (wns w)))) = Some e.
+
+  Lemma kp_mono w w' known : wext w w' -> kp w known -> kp w' known.
+  Proof. intros [E _] H p Hp. destruct (H p Hp) as [e He]. exists e. apply E, He. Qed.
+
+  Lemma p2e_key_ns m p e : nsinv m -> slookup p (p2e m) = Some e -> exists n, p = ns_name n.
+  Proof.
+    intros [Hk _] H. apply slookup_In in H. apply (in_map fst) in H. cbn in H. rewrite Hk, in_map_iff in H.
+    destruct H as (n & Hn & _). now exists n.
+  Qed.
+
+  Lemma known_run ops : forall w known,
+    winv w -> kp w known ->
+    expand_known_ok known (combine ops (snd (wrun v_fixed L ops w))) = true.
+  Proof.
+    induction ops as [|op ops IH]; intros w known Hinv Hk; cbn [wrun]; [reflexivity|].
+    destruct (wstep_strong op w Hinv) as (H1 & H2 & _ & _).
+    destruct (wstep v_fixed L op w) as [w1 o] eqn:Es. cbn [fst] in *.
+    pose proof (kp_mono _ _ _ H2 Hk) as Hk1.
+    specialize (IH w1). destruct (wrun v_fixed L ops w1) as [w2 os] eqn:Er. cbn [snd combine] in *.
+    assert (Hdef : expand_known_ok known (combine ops os) = true) by (apply (IH known H1 Hk1)).
+    destruct op; try (destruct o as [[ | | | ]| | | ]; cbn [expand_known_ok]; exact Hdef).
+    cbn [wstep] in Es. change (v_alias v_fixed) with AliasCopy in Es.
+    destruct Hinv as (Hn & _ & _ & _).
+    destruct o0; try (destruct o as [[ | | | ]| | | ]; cbn [expand_known_ok]; exact Hdef).
+    - (* NAssert *)
+      cbn [ns_step] in Es.
+      pose proof (assert_prefix_spec e (nst (wns w)) Hn) as Ha. destruct (assert_prefix e (nst (wns w))) as [st' p].
+      destruct Ha as (_ & Hpe & _). injection Es as <- <-. cbn [expand_known_ok].
+      apply (IH (p :: known) H1). intros p' [<-|Hp']; [exists e; exact Hpe | apply Hk1, Hp'].
+    - (* NCompact *)
+      cbn [ns_step] in Es. destruct (compact u (nst (wns w))) as [st' rc] eqn:Ec. injection Es as <- <-.
+      destruct rc as [c|]; cbn [opt_out expand_known_ok]; [|exact Hdef].
+      destruct (compact_shape u _ _ _ Hn Ec) as (e & l & p & Hu & Hc & Hp).
+      destruct H1 as (Hn1 & Hrest). cbn [wns] in Hn1.
+      destruct (p2e_key_ns _ _ _ (proj1 Hn1) Hp) as [n ->].
+      assert (Hcp : curie_prefix c = Some (ns_name n)).
+      { unfold curie_prefix. rewrite Hc, (split_first_app _ _ _ (ns_name_no_colon n)). reflexivity. }
+      rewrite Hcp. apply (IH (ns_name n :: known) (conj Hn1 Hrest)).
+      intros p' [<-|Hp']; [exists e; exact Hp | apply Hk1, Hp'].
+    - (* NExpand *)
+      destruct o as [[ |  | | ]| | | ]; cbn [expand_known_ok]; try exact Hdef.
+      rewrite Hdef, andb_true_r. apply negb_true_iff.
+      cbn [ns_step] in Es. injection Es as _ Eo. unfold expand_curie, expand_in in Eo. unfold curie_prefix.
+      destruct (split_first c_colon c) as [[p post]|]; [|reflexivity].
+      destruct (existsb (str_eqb p) known) eqn:Ex; [|reflexivity]. exfalso.
+      apply existsb_exists in Ex. destruct Ex as (p' & Hp' & Heq). apply str_eqb_eq in Heq. subst p'.
+      destruct (Hk p Hp') as [e He]. rewrite He in Eo. discriminate.
+  Qed.
+
   Lemma winv_empty : winv (w_empty L).
   Proof.
     split; [apply nsw_inv_init|]. split; [split; [constructor | reflexivity]|].
@@ -877,7 +891,7 @@ Proof.
     destruct (wrun_strong L_go HL (c_ops c) w0 Hw0) as (Hwf & _ & Hd & Hev).
     rewrite H3, Nat.eqb_refl, Hd. cbn [andb].
     rewrite (snapshot_wrun L_go (c_ops c) w0 []); [|unfold w0; rewrite setup_handles; reflexivity | constructor].
-    rewrite (known_run L_go HL (c_ops c) w0 [] Hw0); [|intros c0 []].
+    rewrite (known_run L_go HL (c_ops c) w0 [] Hw0); [|intros p0 []].
     rewrite (dsctx_run L_go HL (c_ops c) w0 [] Hw0); [|intros p0 e0 []].
     rewrite (compact_fun_run L_go HL (c_ops c) w0 [] Hw0); [|intros u0 c0 []]. cbn [andb].
     destruct (ends_dump_split _ Hend) as [ops0 E].
